@@ -18,7 +18,7 @@ def run(tier, seed):
     res = {"violations": [], "broken": [], "coverage": {}}
     specs = [("mu_mix", {}, 1500, 30000), ("cv_mix", {"VRT_MODE": 0}, 1000, 20000), ("cv_mix", {"VRT_MODE": 1}, 700, 15000),
              ("cv_mix", {"VRT_MODE": 2}, 700, 15000), ("once_mix", {}, 1000, 20000), ("counter_mix", {}, 1000, 20000),
-             ("note_mix", {}, 1200, 20000), ("waitn_mix", {}, 1200, 20000), ("muwait_mix", {}, 1200, 20000), ("mu_mix", {"VRT_PLAINPM": 40}, 800, 15000), ("cv_mix", {"VRT_PLAINPM": 40}, 800, 15000)]
+             ("note_mix", {}, 1200, 20000), ("waitn_mix", {}, 1200, 20000), ("muwait_mix", {}, 1200, 20000), ("muwait_mix", {"VRT_MODE": 0, "VRT_FINE": 600}, 2000, 40000), ("mu_mix", {"VRT_PLAINPM": 40}, 800, 15000), ("cv_mix", {"VRT_PLAINPM": 40}, 800, 15000)]
     cov = scen_common.run_scenarios(res, specs, tier, seed, {"RACE"}, label_nontrivial="plain")
     cov["rule"] = ("all scenario families run with the runtime's happens-before detector on: client data touched inside critical sections, "
                    "once-function effects, note/counter/cv hand-offs and nsync's own non-atomic fields; happens-before is computed only from "
